@@ -167,6 +167,17 @@ func init() {
 		}
 		return ec.e().inL(scalar(args[0]), name)
 	}
+	stdModels["time.NewTimer"] = func(ec *evalCtx, call *ast.CallExpr, recv Value, args []Value) Value {
+		// a timer: a non-nil pointer to a struct whose channel C is some channel (never closed by the runtime)
+		sv := &StructV{Names: []string{"C"}, F: map[string]Value{"C": Var(ec.e().fresher.name("timer.C"), SInt)}}
+		return &PtrV{Nil: False, Obj: ec.e().allocObj(ec.st, sv)}
+	}
+	stdModels["(*time.Timer).Reset"] = func(ec *evalCtx, call *ast.CallExpr, recv Value, args []Value) Value {
+		return Var(ec.e().fresher.name("timer.Reset"), SBool)
+	}
+	stdModels["(*time.Timer).Stop"] = func(ec *evalCtx, call *ast.CallExpr, recv Value, args []Value) Value {
+		return Var(ec.e().fresher.name("timer.Stop"), SBool)
+	}
 	stdModels["(*sync.Mutex).Lock"] = lockModel(true, false)
 	stdModels["(*sync.Mutex).Unlock"] = lockModel(false, false)
 	stdModels["(*sync.RWMutex).Lock"] = lockModel(true, false)
@@ -199,11 +210,13 @@ func lockModel(acquire, shared bool) stdModel {
 				ec.oblige("lock", And(Not(ex), Not(sh)), call.Pos(), "lock acquired twice: "+name)
 			}
 			ec.st.ghost[key] = True
+			ec.e().forgetChanOpen(ec.st)
 			ec.lockInvariant(call, true)
 		} else {
 			ec.oblige("lock", cur, call.Pos(), "unlock of a lock not held: "+key)
 			ec.lockInvariant(call, false)
 			ec.st.ghost[key] = False
+			ec.e().forgetChanOpen(ec.st)
 		}
 		return nil
 	}
